@@ -226,3 +226,60 @@ pub fn c10_compare(dir: &str, bytes: &[u8], w: MVal, wdbg: String, r: Result<(MV
         }
     }
 }
+
+
+/// "Fields unknown to the reader are ignored whatever their content": take bytes the reader accepts and add fields it
+/// does not know, holding ARBITRARY well-formed items (every major type, wide heads, indefinite containers and strings,
+/// tag chains, integers beyond i64, half floats, simple values) - what a newer writer with fields of any type would send.
+/// Array encoding: the body is padded with nulls up to the reader's highest index, then 1-3 items are appended; map
+/// encoding: 1-3 entries with keys outside both versions' indices are inserted at generated positions. Returns None
+/// when the root is not a plain struct body.
+pub fn inject_unknown_fields(g: &mut Gen, bytes: &[u8], reader: &Desc, writer: &Desc) -> Option<(Vec<u8>, String)> {
+    let (rf, enc) = match reader { Desc::Struct { enc, transparent: false, fields, .. } => (fields, *enc), _ => return None };
+    let wf: &[FDesc] = match writer { Desc::Struct { fields, .. } => fields, _ => &[] };
+    let (root, used) = vcore::item::parse(bytes).ok()?;
+    if used != bytes.len() { return None }
+    let cfg = vcore::gen::ItemCfg { max_depth: 4, max_nodes: 12, wide: true, indef: true, tags: true, floats: true, simple: true, f16: true, max_str: 12 };
+    let n = 1 + g.below(3);
+    let mut what = String::new();
+    let (tag, body) = match root { Item::Tag(t, w, b) => (Some((t, w)), *b), other => (None, other) };
+    let new_body = match (enc, body) {
+        (Enc::Array, Item::Array(mut v, _)) => {
+            let top = rf.iter().chain(wf.iter()).map(|f| f.idx as usize + 1).max().unwrap_or(0);
+            if top > 4096 { return None }
+            while v.len() < top { v.push(Item::Null) }
+            for _ in 0 .. n { let it = vcore::gen::item(g, &cfg); what.push_str(&format!("#{}={} ", v.len(), vcore::item::hex(&it.encode()))); v.push(it) }
+            if g.chance(60) { Item::Array(v, None) } else { Item::array(v) }
+        }
+        (Enc::Map, Item::Map(mut v, _)) => {
+            let mut next = rf.iter().chain(wf.iter()).map(|f| f.idx as u64 + 1).max().unwrap_or(0);
+            for _ in 0 .. n {
+                let key = if g.chance(40) { next + g.below(1000) as u64 } else { next };
+                next = key + 1;
+                let it = vcore::gen::item(g, &cfg);
+                what.push_str(&format!("#{}={} ", key, vcore::item::hex(&it.encode())));
+                let pos = g.below(v.len() + 1);
+                v.insert(pos, (Item::uint(key), it));
+            }
+            if g.chance(60) { Item::Map(v, None) } else { Item::map(v) }
+        }
+        _ => return None
+    };
+    let out = match tag { Some((t, w)) => Item::Tag(t, w, Box::new(new_body)), None => new_body };
+    Some((out.encode(), what))
+}
+
+/// The reader saw `plain`; with unknown fields injected (or the writer's value re-framed) it must see the same.
+pub fn c10_same_view(what: &str, detail: &str, bytes: &[u8], plain: &MVal, r: Result<(MVal, String), Error>, pos: usize, st: &mut Stats, class: &'static str) -> CaseResult {
+    st.eval();
+    match r {
+        Err(e) => Err(Fail::new("rejected", format!("{}: {} ({}) was rejected: {}", what, short_hex(bytes), detail, e))),
+        Ok((rv, rdbg)) => {
+            ensure!(&rv == plain, "disturbed", "{}: {} ({}) read back as {} - not what the reader sees without them", what, short_hex(bytes), detail, rdbg);
+            ensure!(pos == bytes.len(), "position", "{}: reader consumed {} of {} bytes of {}", what, pos, bytes.len(), short_hex(bytes));
+            st.class(class);
+            st.nontrivial(hash_of(&bytes));
+            Ok(())
+        }
+    }
+}
